@@ -363,6 +363,17 @@ IMPLICIT_DATA_TYPE_CONVERSIONS = {
 }
 
 
+def text_of(value):
+    """ What an operand of & joins as. """
+    if value is None:
+        # a blank operand joins as nothing
+        return ''
+    if isinstance(value, float) and value.is_integer() and abs(value) < 1e15:
+        # a whole number joins as its digits however it was computed: (10/2)&" items" is "5 items"
+        return str(int(value))
+    return str(value)
+
+
 def evaluate_arithmetic(op, lval, rval):
     if isinstance(lval, error.XLError):
         return lval
